@@ -27,6 +27,7 @@ def aEv : List String → Option AioClient.Ev
   | ["close"] => some .close
   | ["accept"] => some .accept
   | ["refuse"] => some .refuse
+  | ["refuse", _] => some .refuse        -- the attempt failed with another OSError (timeout, DNS, several addresses)
   | ["data", b] => do some (.data (← unhex b))
   | ["lost"] => some .lost
   | ["advance", ms] => do some (.advance (← ms.toNat?))
